@@ -10,11 +10,16 @@ type scenarioDef struct {
 }
 
 var netScenario = scenarioDef{"NET", 1, genNetConfig, RunNet}
+var rtScenario = scenarioDef{"RT", 1, genRTConfig, RunRT}
 
 func plan(prop string) []scenarioDef {
 	switch prop {
+	case "C12", "C13":
+		return []scenarioDef{netScenario, rtScenario}
+	case "C14", "C16":
+		return []scenarioDef{rtScenario}
 	case "C15":
-		return []scenarioDef{{"COMP-contexts", 30, genCtxConfig, RunCtxComp}, {"COMP-contexts-sweep", 1, genCtxSweepConfig, RunCtxSweep}}
+		return []scenarioDef{{"COMP-contexts", 60, genCtxConfig, RunCtxComp}, {"COMP-contexts-sweep", 1, genCtxSweepConfig, RunCtxSweep}, {"RT", 40, genRTConfig, RunRT}}
 	case "C19":
 		return []scenarioDef{{"COMP-timer", 1, genTimerConfig, RunTimerComp}}
 	case "C17":
